@@ -8,12 +8,25 @@ package main
 // exactly as in the core half. Reference model: lastActivity = accept, end of each response
 // (HTTP) / upgrade and each message (WebSocket); the connection must be closed by its read
 // deadline at lastActivity + keep-alive time, not earlier, and with ErrReadTimeout.
+//
+// The kind of inbound activity is a dimension of its own (added after seeded change C16-m3, which
+// stopped renewing for control frames and was invisible while the client only sent text
+// messages): WebSocket text / binary message, ping, pong, and a fragmented message whose
+// fragments arrive separated by gaps (also with a control frame between them); HTTP complete
+// request and a POST whose head and body arrive separated by a gap. What renews on the unchanged
+// tree is every *handled unit*: handleWsMessage's deferred SetReadDeadline runs for each complete
+// data message and for each control frame (ping, pong), flushResponse's for each response. Bytes
+// that do not complete a unit (a first or middle fragment, a request head without its body) run
+// no handler and renew nothing; the statement does not say whether such a connection is "silent",
+// so the model accepts a close anywhere between lastHandledUnit + keep-alive and
+// lastInboundByte + keep-alive for them (see Assumptions).
 
 import (
 	"bytes"
 	"fmt"
 	"net"
 	"net/http"
+	"strings"
 	"time"
 
 	"github.com/lesismal/nbio"
@@ -34,24 +47,55 @@ const (
 	wsKeepalive   = 4 * time.Second // different from the HTTP value so that a mix-up is visible
 )
 
+// kstep is one step of the client: sleep gap seconds, then send one unit of the given kind.
+//
+//	HTTP       Q complete GET request      H head of a POST (Content-Length: 4), nothing handled yet
+//	           Y the 4 body bytes of that POST (completes the request)
+//	WebSocket  T text message  B binary message  I ping  O (unsolicited) pong
+//	           F first fragment of a text message (FIN=0)   M middle fragment (continuation, FIN=0)
+//	           C last fragment (continuation, FIN=1: completes the message)
+type kstep struct {
+	gap  int
+	kind byte
+}
+
+// partial: the unit does not complete anything the server handles.
+func (s kstep) partial() bool { return s.kind == 'H' || s.kind == 'F' || s.kind == 'M' }
+
+var kindNames = map[byte]string{'Q': "request", 'H': "post-head", 'Y': "post-body", 'T': "text", 'B': "binary", 'I': "ping", 'O': "pong", 'F': "frag-first", 'M': "frag-middle", 'C': "frag-last"}
+
 type kcfg struct {
-	mode ekit.Mode
-	exec string // inline | go
-	ws   bool
-	gaps []int // seconds slept before each request / message
-	work int   // virtual seconds the HTTP handler / WebSocket message handler takes (0: none)
-	p, d int
+	mode  ekit.Mode
+	exec  string // inline | go
+	ws    bool
+	steps []kstep
+	work  int // virtual seconds the HTTP handler / WebSocket message or control-frame handler takes (0: none)
+	p, d  int
 }
 
 func (c kcfg) name() string {
-	kind := "http"
+	kind, def := "http", byte('Q')
 	if c.ws {
-		kind = "ws"
+		kind, def = "ws", 'T'
+	}
+	plain := true
+	gaps := []int{}
+	var st []string
+	for _, s := range c.steps {
+		if s.kind != def {
+			plain = false
+		}
+		gaps = append(gaps, s.gap)
+		st = append(st, fmt.Sprintf("%d:%s", s.gap, kindNames[s.kind]))
+	}
+	what := fmt.Sprintf("gaps=%v", gaps)
+	if !plain {
+		what = "steps=[" + strings.Join(st, " ") + "]"
 	}
 	if c.work > 0 {
-		return fmt.Sprintf("keepalive %s %s exec=%s gaps=%v work=%ds", kind, c.mode, c.exec, c.gaps, c.work)
+		return fmt.Sprintf("keepalive %s %s exec=%s %s work=%ds", kind, c.mode, c.exec, what, c.work)
 	}
-	return fmt.Sprintf("keepalive %s %s exec=%s gaps=%v", kind, c.mode, c.exec, c.gaps)
+	return fmt.Sprintf("keepalive %s %s exec=%s %s", kind, c.mode, c.exec, what)
 }
 
 type kworld struct {
@@ -74,6 +118,12 @@ type kworld struct {
 	renewNotBefore time.Time
 	working        bool // a handler is spending virtual time (the clock may run)
 	upgraded       bool
+	// bytes that completed nothing arrived (a fragment, a request head): whether they count as
+	// activity is left open, a firing up to their arrival + keep-alive time is accepted
+	slackHi time.Time
+	// what the exchange in flight is / what the last renewal was for (signatures, counters)
+	curKind, lastRenew string
+	whenBefore         time.Time // the armed read deadline when the exchange in flight was sent
 
 	fires     []fireRec
 	orphanF   int
@@ -155,17 +205,24 @@ func (w *kworld) fireOne() {
 			fr.detail = fmt.Sprintf("the read timer fired at %s after the connection's close notification", rel(at))
 		case at.Before(w.lo):
 			fr.verdict = "early"
-			fr.detail = fmt.Sprintf("the read timer fired at %s; last activity + keep-alive time (%v) = %s", rel(at), w.ka, w.dlString())
+			fr.detail = fmt.Sprintf("the read timer fired at %s; last activity (%s, handled at %s) + keep-alive time (%v) = %s", rel(at), w.lastRenew, rel(w.lo.Add(-w.ka)), w.ka, w.dlString())
 		case w.sent > w.completed:
 			// the deadline is being renewed by an exchange in flight: either outcome is accepted
 			fr.verdict = "racy"
 			w.counters["fire_racing_exchange"]++
-		case at.After(w.hi):
+		case at.After(w.hi) && at.After(w.slackHi):
 			fr.verdict = "legit"
-			w.failf("keepalive-late kind=%s|last activity + keep-alive time (%v) = %s, but the read timer fired only at %s", w.kind(), w.ka, w.dlString(), rel(at))
+			w.failf("keepalive-late kind=%s after=%s|last activity (%s) + keep-alive time (%v) = %s, but the read timer fired only at %s", w.kind(), w.lastRenew, w.lastRenew, w.ka, w.dlString(), rel(at))
+		case at.After(w.hi):
+			// between "last handled unit + keep-alive" and "last inbound byte + keep-alive"
+			fr.verdict = "legit"
+			w.counters["fire_after_partial_unit_counted_as_activity"]++
 		default:
 			fr.verdict = "legit"
 			w.counters["fire_legit"]++
+			if !w.slackHi.IsZero() {
+				w.counters["fire_after_partial_unit_not_counted_as_activity"]++
+			}
 		}
 		w.fires = append(w.fires, fr)
 	case pre.t[1].armed && !post.t[1].armed:
@@ -212,7 +269,22 @@ func (w *kworld) executorDone() {
 		w.completed = w.started
 		if w.closes == 0 {
 			w.lo, w.hi = w.renewNotBefore.Add(w.ka), vtime.VNow().Add(w.ka)
+			w.slackHi = time.Time{}
+			w.lastRenew = w.curKind
 			w.counters["renewals"]++
+			w.counters["renewals_after_"+w.curKind]++
+			// observed, not modelled: the armed read deadline moved forward during this exchange
+			if t := snapTimers(w.conn).t[0]; t.armed && t.when.After(w.whenBefore) {
+				w.counters["deadline_moved_by_"+w.curKind]++
+				switch w.curKind {
+				case "ping", "pong":
+					w.counters["control_frames_that_renewed_the_deadline"]++
+				case "frag-last":
+					w.counters["fragmented_messages_that_renewed_the_deadline"]++
+				case "post-body":
+					w.counters["requests_in_two_parts_that_renewed_the_deadline"]++
+				}
+			}
 		}
 	}
 }
@@ -238,7 +310,7 @@ func (w *kworld) onClose(c net.Conn, err error) {
 	switch {
 	case ok:
 	case len(w.fires) > 0:
-		w.failf("keepalive-%s-close kind=%s|closed with %q at %s: %s", w.fires[0].verdict, w.kind(), err, rel(w.closeAt), w.fires[0].detail)
+		w.failf("keepalive-%s-close kind=%s after=%s|closed with %q at %s: %s", w.fires[0].verdict, w.kind(), w.lastRenew, err, rel(w.closeAt), w.fires[0].detail)
 	default:
 		w.failf("keepalive-timeout-close-without-expiry kind=%s|closed with %q at %s although the connection's read timer never fired", w.kind(), err, rel(w.closeAt))
 	}
@@ -256,10 +328,14 @@ func upgradeRequest() []byte {
 	return []byte("GET /ws HTTP/1.1\r\nHost: h\r\nConnection: Upgrade\r\nUpgrade: websocket\r\nSec-WebSocket-Version: 13\r\nSec-WebSocket-Key: dGhlIHNhbXBsZSBub25jZQ==\r\n\r\n")
 }
 
-func wsTextFrame(i int) []byte {
-	payload := []byte(fmt.Sprintf("m%d", i))
+// wsFrame is one masked client frame (payload < 126 bytes).
+func wsFrame(opcode byte, fin bool, payload []byte) []byte {
 	mask := [4]byte{1, 2, 3, 4}
-	b := []byte{0x81, 0x80 | byte(len(payload))}
+	b0 := opcode
+	if fin {
+		b0 |= 0x80
+	}
+	b := []byte{b0, 0x80 | byte(len(payload))}
 	b = append(b, mask[:]...)
 	for j, c := range payload {
 		b = append(b, c^mask[j%4])
@@ -267,12 +343,39 @@ func wsTextFrame(i int) []byte {
 	return b
 }
 
+// unitBytes is what the client sends for step i of the given kind.
+func unitBytes(kind byte, i int) []byte {
+	switch kind {
+	case 'Q':
+		return httpRequest(i)
+	case 'H':
+		return []byte(fmt.Sprintf("POST /p%d HTTP/1.1\r\nHost: h\r\nContent-Length: 4\r\n\r\n", i))
+	case 'Y':
+		return []byte("body")
+	case 'T':
+		return wsFrame(1, true, []byte(fmt.Sprintf("m%d", i)))
+	case 'B':
+		return wsFrame(2, true, []byte{0xff, byte(i)})
+	case 'I':
+		return wsFrame(9, true, []byte(fmt.Sprintf("p%d", i)))
+	case 'O':
+		return wsFrame(10, true, []byte(fmt.Sprintf("q%d", i)))
+	case 'F':
+		return wsFrame(1, false, []byte(fmt.Sprintf("f%d", i)))
+	case 'M':
+		return wsFrame(0, false, []byte(fmt.Sprintf("g%d", i)))
+	case 'C':
+		return wsFrame(0, true, []byte(fmt.Sprintf("h%d", i)))
+	}
+	panic("c16: unknown unit kind")
+}
+
 func kbody(c kcfg) func() {
 	return func() {
 		vsys.Configure(false, false)
 		tr := track.New(track.Pooled)
 		mempool.DefaultMemPool = tr
-		w := &kworld{counters: map[string]int{}, ka: httpKeepalive}
+		w := &kworld{counters: map[string]int{}, ka: httpKeepalive, lastRenew: "accept"}
 		lastCounters, lastOutcome = w.counters, "setup-failed"
 		var executor func(f func())
 		switch c.exec {
@@ -283,8 +386,25 @@ func kbody(c kcfg) func() {
 		}
 		up := websocket.NewUpgrader()
 		up.KeepaliveTime = wsKeepalive
-		up.OnMessage(func(_ *websocket.Conn, _ websocket.MessageType, _ []byte) {
+		up.OnMessage(func(_ *websocket.Conn, _ websocket.MessageType, data []byte) {
 			w.activityStart()
+			w.counters["ws_messages_delivered"]++
+			if len(data) > 2 {
+				w.counters["ws_fragmented_messages_delivered"]++
+			}
+			w.activityWork(c.work)
+		})
+		// control frames: the default handlers' behaviour (a ping is answered with a pong, a pong
+		// is ignored) plus the bookkeeping
+		up.SetPingHandler(func(wc *websocket.Conn, data string) {
+			w.activityStart()
+			w.counters["ws_pings_handled"]++
+			w.activityWork(c.work)
+			_ = wc.WriteMessage(websocket.PongMessage, []byte(data))
+		})
+		up.SetPongHandler(func(_ *websocket.Conn, _ string) {
+			w.activityStart()
+			w.counters["ws_pongs_handled"]++
 			w.activityWork(c.work)
 		})
 		conf := nbhttp.Config{
@@ -340,25 +460,38 @@ func kbody(c kcfg) func() {
 		vsched.GoNamed("client", func() {
 			// one exchange at a time: the client waits until the server has processed what it sent
 			// (or the connection was closed) before it sleeps again
-			send := func(b []byte) {
+			send := func(b []byte, kind string) {
 				w.tick()
 				w.sent++
+				w.curKind = kind
+				w.whenBefore = snapTimers(w.conn).t[0].when
 				w.peer.WriteAll(b)
 				w.maybeFire("sent")
 				vsched.Block("client: exchange in flight", func() bool { return w.completed >= w.sent || w.closes > 0 })
 				w.tick()
 			}
-			if c.ws {
-				send(upgradeRequest())
-			}
-			for i, g := range c.gaps {
-				if g > 0 {
-					vtime.Sleep(time.Duration(g) * time.Second)
+			// bytes that complete nothing: no handler will run, the client does not wait (whether
+			// the server has consumed them when the client goes on is up to the scheduler)
+			sendPartial := func(b []byte, kind string) {
+				w.tick()
+				w.counters["partial_units_sent"]++
+				if w.closes == 0 {
+					w.slackHi = vtime.VNow().Add(w.ka)
 				}
-				if c.ws {
-					send(wsTextFrame(i))
+				w.peer.WriteAll(b)
+				w.tick()
+			}
+			if c.ws {
+				send(upgradeRequest(), "upgrade")
+			}
+			for i, st := range c.steps {
+				if st.gap > 0 {
+					vtime.Sleep(time.Duration(st.gap) * time.Second)
+				}
+				if st.partial() {
+					sendPartial(unitBytes(st.kind, i), kindNames[st.kind])
 				} else {
-					send(httpRequest(i))
+					send(unitBytes(st.kind, i), kindNames[st.kind])
 				}
 			}
 			w.tick()
@@ -376,7 +509,7 @@ func kbody(c kcfg) func() {
 		}
 		closed, _ := w.conn.IsClosed()
 		if !closed {
-			w.failf("keepalive-not-enforced kind=%s|the %s connection has been idle since %s (keep-alive time %v), every pending timer has fired (virtual time %s), and it is still open", w.kind(), w.kind(), rel(w.lo.Add(-w.ka)), w.ka, rel(vtime.VNow()))
+			w.failf("keepalive-not-enforced kind=%s after=%s|the %s connection has been idle since %s (last activity: %s; keep-alive time %v), every pending timer has fired (virtual time %s), and it is still open", w.kind(), w.lastRenew, w.kind(), rel(w.lo.Add(-w.ka)), w.lastRenew, w.ka, rel(vtime.VNow()))
 		} else if w.closes == 0 {
 			w.counters["closed_without_notification_judged_by_C03"]++
 		}
